@@ -25,6 +25,7 @@ RULE = (
     'SHA-1 of the case JSON.'
 )
 RULE += (' ' + 'Also generated: sequences of Buildables over unhashable callable instances (eq=True dataclasses with __call__).')
+RULE += (' ' + 'Round 6: argument values without a truth value (array-like: bool() raises).')
 RULE += (' ' + "Rounds 3-5: bound methods and the plain functions they wrap in generated order (class created per case); **kwargs entries named like positional-only / *args / **kwargs parameters; tags on the root's arguments; positional defaults None / 0; OrderedDict and list-subclass argument values; **kwargs configured in non-alphabetical order, with a clause on the order the callee receives them.")
 ASSUMPTIONS = [
     'inspect.signature of the universe callables is correct (CPython)',
@@ -37,7 +38,9 @@ FLOORS = {'gap': 0.037, 'nested_in_container': 0.042, 'required_missing': 0.03}
 
 @st.composite
 def strategy_(draw, tier):
-  leaf_st = leaves.leaf('plain')
+  # plain literals, and now and then a value that has no truth value (array-like)
+  leaf_st = st.sampled_from(range(12)).flatmap(
+      lambda i: st.just({'$sym': 'things:NO_TRUTH'}) if i == 0 else leaves.leaf('plain'))
   nodes = []
   n_pre = draw(st.integers(0, 6))
   simple_fns = [{'kind': 'sym', 'name': 'things:f2'}, {'kind': 'sym', 'name': 'things:ident'},
